@@ -21,6 +21,7 @@ import (
 	_ "github.com/google/pprof/verif/checks/c17"
 	_ "github.com/google/pprof/verif/checks/c18"
 	_ "github.com/google/pprof/verif/checks/c19"
+	_ "github.com/google/pprof/verif/checks/c20"
 	"github.com/google/pprof/verif/internal/harness"
 )
 
